@@ -44,6 +44,23 @@ def dev(argv):
                             print("dumped", ob.name, ob.path, fn)
             if a.startswith("--only="):
                 obs = [ob for ob in obs if a[7:] in ob.name + "/" + ob.path]
+        if "--vacuity" in sys.argv:
+            import z3
+            from .ctx import Obligation
+            seen = set()
+            vobs = []
+            for ob in obs:
+                key = (ob.path, len(ob.pc))
+                if key in seen:
+                    continue
+                seen.add(key)
+                vobs.append(Obligation(ob.name + "/VACUITY", "vacuity", ob.func, ob.line, ob.pc, z3.BoolVal(False), ob.path, "False"))
+            vres = discharge(vobs, timeout_ms=3000, second=False)
+            nbad = sum(1 for r in vres if r["verdict"] == "proved")
+            print("   vacuity: %d path conditions probed, %d contradictory" % (len(vobs), nbad))
+            for ob, r in zip(vobs, vres):
+                if r["verdict"] == "proved":
+                    print("     CONTRADICTORY assumptions at", ob.name, ob.path)
         res = discharge(obs, timeout_ms=timeout)
         bad = 0
         for ob, rr in zip(obs, res):
